@@ -61,12 +61,16 @@ func (rw *ResponseWriter) Write(r Response) error {
 	}
 	rw.writerMu.Lock()
 	defer rw.writerMu.Unlock()
+	verifPoint("w.locked", rw.connID, rw.requestID)
+	defer verifPoint("w.unlock", rw.connID, rw.requestID)
 	if _, err := rw.writer.Write(r.packet().Bytes()); err != nil {
 		return fmt.Errorf("%s: unable to write response: %w", op, err)
 	}
+	verifPoint("w.written", rw.connID, rw.requestID)
 	if err := rw.writer.Flush(); err != nil {
 		return fmt.Errorf("%s: unable to flush write: %w", op, err)
 	}
+	verifPoint("w.flushed", rw.connID, rw.requestID)
 	rw.logger.Debug("finished writing", "op", op, "conn", rw.connID, "requestID", rw.requestID)
 	return nil
 }
